@@ -47,11 +47,11 @@ class Check(PropCheck):
                               root_len=(kind == 'collapse' and rng.random() < 0.5))
             if kind == 'stats' and rng.random() < 0.3:
                 gen.assign_lengths(t, rng, 'none')
-            elif kind == 'stats' and mode == 'exact' and rng.random() < 0.35:
+            elif kind == 'stats' and mode == 'exact' and rng.random() < 0.7:
                 # negative branch lengths (the farthest-pair search must not assume a metric) and partially missing lengths
                 for nd in t.nodes()[1:]:
                     if rng.random() < 0.3 and nd.length is not None:
-                        nd.length = -nd.length
+                        nd.length = -nd.length * rng.choice([1, 1, 4])
                     elif rng.random() < 0.1:
                         nd.length = None
             if kind == 'collapse' and rng.random() < 0.12:
@@ -59,6 +59,18 @@ class Check(PropCheck):
                 if cand:
                     rng.choice(cand).length = float('nan')       # NaN is not shorter than any threshold
             self.jobs.append({'cid': 'j%d' % j, 'kind': kind, 'tree': t, 'mode': mode, 'rng': rng.randint(0, 2 ** 30), 'use_o': rng.random() < 0.4})
+        # small trees with negative / zero / missing lengths for the report subcommands: the farthest pair of tips is then not found by
+        # greedy sweeps, heights may be negative, sums cancel
+        for j in range(60 if self.tier == 'quick' else 1500):
+            n = rng.randint(3, 6)
+            t = gen.rand_tree(rng, n, 'exact', p_multi=rng.choice([0, 0.4]), p_unary=rng.choice([0, 0.15]), internal_names=rng.choice([0, 0.5]),
+                              names=['t%d' % i for i in range(n)])
+            kd = rng.choice(['stats', 'stats', 'distance', 'matrix'])
+            for nd in t.nodes()[1:]:
+                nd.length = rng.choice([-5.0, -4.5, -1.0, 0.0, 0.5, 1.0, 2.0, 5.0, 5.0])
+                if kd == 'stats' and rng.random() < 0.06:
+                    nd.length = None       # (distance / matrix on a tree with a missing length is refused by the tool with an error exit: not a report)
+            self.jobs.append({'cid': 'n%d' % j, 'kind': kd, 'tree': t, 'mode': 'exact', 'rng': rng.randint(0, 2 ** 30), 'use_o': rng.random() < 0.3})
         return []      # the generic machinery is not used: run() is overridden
 
     # ------------------------------------------------------------------------------------------------
